@@ -40,7 +40,8 @@ __attribute__((no_sanitize("thread"), no_sanitize("address"))) static unsigned l
 static unsigned char fd_base[256]; static int inheritable_seen, inheritable_fd = -1;
 static void fd_baseline(void) { for (int fd = 0; fd < 256; fd++) fd_base[fd] = fcntl(fd, F_GETFD) >= 0; }
 static int cb(int is_execve, const char *p, char *const a[], char *const e[]) { (void)is_execve; (void)p; (void)a; (void)e; if (me >= 0) rec_calls[me]++; else rec_calls[7]++;
-    for (int fd = 3; fd < 256; fd++) { int fl; if (!fd_base[fd] && (fl = fcntl(fd, F_GETFD)) >= 0 && !(fl & FD_CLOEXEC)) { __atomic_add_fetch(&inheritable_seen, 1, __ATOMIC_RELAXED); __atomic_store_n(&inheritable_fd, fd, __ATOMIC_RELAXED); } }
+    for (int fd = 3; fd < 256; fd++) { int fl; if (!fd_base[fd] && (fl = fcntl(fd, F_GETFD)) >= 0 && !(fl & FD_CLOEXEC)) { char lp[64], tg[512]; snprintf(lp, sizeof lp, "/proc/self/fd/%d", fd); ssize_t tl = readlink(lp, tg, sizeof tg - 1); tg[tl > 0 ? tl : 0] = 0;
+            const char *bn = strrchr(tg, '/'); bn = bn ? bn + 1 : tg; if (!strncmp(bn, "tsan.", 5) || !strncmp(bn, "asan.", 5) || !strncmp(bn, "ubsan.", 6)) continue;   /* the sanitizer's own report file */ __atomic_add_fetch(&inheritable_seen, 1, __ATOMIC_RELAXED); __atomic_store_n(&inheritable_fd, fd, __ATOMIC_RELAXED); } }
     errno = ENOENT; return -1; }
 static void one_call(int t, int j) {
     char path[64], a1[64], a2[64]; snprintf(path, sizeof path, "/t%d/prog%d", t, j); snprintf(a1, sizeof a1, "arg-t%d-j%d", t, j); snprintf(a2, sizeof a2, "T%dT%dT%d", t, t, t);
